@@ -194,3 +194,11 @@ Print Assumptions pamb_formula.
 Example incomp_guard_example :
   (PI * (1 / 10) ^ 2 / 4) <> 0 /\ (1 / 10 : R) <> 0 /\ (998 : R) <> 0.
 Proof. repeat split; try lra. pose proof PI_RGT_0. nra. Qed.
+
+(* gas: DN100, rho_N = 0.8 kg/m3, end pressures 4 / 3.9 bar abs, 0.05 kg/s; friction guard Re > 1e-8 *)
+Example gas_guard_example :
+  (PI * (1 / 10) ^ 2 / 4) <> 0 /\ (8 / 10 : R) <> 0 /\ (4 + 39 / 10 : R) <> 0 /\ 0 <= (5 / 100 : R) /\
+  (4 : R) <> 39 / 10 /\ 1 / 100000000 < Rabs (5 / 100) * (1 / 10) / (1 / 100000 * (1 / 100)).
+Proof.
+  rewrite (Rabs_right (5 / 100)) by lra. repeat split; try lra. pose proof PI_RGT_0. nra.
+Qed.
